@@ -18,7 +18,7 @@ ID = 'C13'
 LEVEL = 'exploration'
 RUNS = {'quick': 16000, 'thorough': 300000}
 CHUNK = 40
-PROBES = ['class_lists_edited_while_listing_pending', 'other_request_made_while_listing_half_read', 'bsd_call_named_in_another_bsd_subclass', 'request_that_fails_at_creation', 'lookup_crossing_call_start', 'capture_begins_and_ends_inside_announcement_pairs', 'trace_string_code_outside_trace_class', 'request_without_code_table_after_custom_one', 'crossing_classes_on_one_thread', 'process_named_like_a_number', 'empty_thread_map', 'process_of_thread_announced_in_stream', 'dump_cut_at_both_ends', 'class_filter_bsd', 'class_filter_non_bsd', 'bsd_subclass_filter', 'tid_filter', 'process_filter_name', 'process_filter_pid',
+PROBES = ['filters_given_as_sets', 'class_lists_edited_while_listing_pending', 'other_request_made_while_listing_half_read', 'bsd_call_named_in_another_bsd_subclass', 'request_that_fails_at_creation', 'lookup_crossing_call_start', 'capture_begins_and_ends_inside_announcement_pairs', 'trace_string_code_outside_trace_class', 'request_without_code_table_after_custom_one', 'crossing_classes_on_one_thread', 'process_named_like_a_number', 'empty_thread_map', 'process_of_thread_announced_in_stream', 'dump_cut_at_both_ends', 'class_filter_bsd', 'class_filter_non_bsd', 'bsd_subclass_filter', 'tid_filter', 'process_filter_name', 'process_filter_pid',
           'helper_trace_class_hidden', 'helper_fs_class_hidden', 'helper_class_requested', 'repeat_request', 'callstacks_repeat',
           'kevents_after_traces', 'tuple_filter', 'images_announced_after_sample', 'combined_filters']
 RULE = ('one run = one long-lived PyKdebugParser and a history of 2..6 judged requests (traces, formatted_traces, callstacks, '
@@ -83,6 +83,8 @@ def _gen_filters(rng, dump):
     f['as_tuple'] = False    # traces() with tuple filters is exercised separately (probe tuple_filter)
     if rng.chance(0.1) and ('cls' in f or 'sub' in f):
         f['as_tuple'] = True
+    elif rng.chance(0.06) and ('cls' in f or 'sub' in f):
+        f['as_set'] = True
     return f
 
 
@@ -340,6 +342,7 @@ def execute(scn):
     files = []
     tables = []
     filter_sensitive = []
+    rename_sensitive = []
     for d in scn['dumps']:
         data, _stream, table = worlds.dump_bytes(d)
         files.append(data)
@@ -348,6 +351,11 @@ def execute(scn):
         # (a sampler thread-info record) or that re-maps its own thread (terminate-pid) change which process a thread belongs to?
         tp_, _pn = worlds.tmap_model(d['writer'].get('tmap', []))
         sens = False
+        map_pids = {t[1] for t in d['writer'].get('tmap', [])}
+        # an announcement that (re)names a process of the thread map: a thread filter that removes the announcing thread's records
+        # before decoding then changes what the process is called - by design, so thread + process filters are not judged there
+        rename_sensitive.append(any(table.get(r['id']) in ('TRACE_DATA_EXEC', 'TRACE_DATA_NEWTHREAD') and
+                                    r['a'][0 if table.get(r['id']) == 'TRACE_DATA_EXEC' else 1] in map_pids for r in _stream))
         for r in _stream:
             nm = table.get(r['id'])
             if r['q'] in (0, 3):
@@ -398,6 +406,7 @@ def execute(scn):
     cur = {}
     hist = []
     held_ = []
+    own = {}
     shapes = set()
     nontrivial = False
     custom_seen = [False]
@@ -429,15 +438,16 @@ def execute(scn):
         if h['op'] == 'mutate':
             # the caller edits its own class list in place between requests
             # (also the lists the object was born with: they belong to this object alone)
-            lst = p.filter_subclass if h.get('which') == 'sub' else p.filter_class
-            if isinstance(lst, list) and isinstance(p.filter_class, list) and isinstance(p.filter_subclass, list):
+            # (through the caller's OWN reference to the list it assigned - or, before any assignment, the list the object was born with)
+            lst = own.get('sub', p.filter_subclass) if h.get('which') == 'sub' else own.get('cls', p.filter_class)
+            if isinstance(lst, list) and isinstance(own.get('cls', p.filter_class), list) and isinstance(own.get('sub', p.filter_subclass), list):
                 if h['how'] == 'append':
                     lst.append(h['value'])
                 elif lst:
                     lst.pop(0)
                 cur = dict(cur)
-                cur['cls'] = list(p.filter_class)
-                cur['sub'] = list(p.filter_subclass)
+                cur['cls'] = list(own.get('cls', p.filter_class))
+                cur['sub'] = list(own.get('sub', p.filter_subclass))
                 cur['as_tuple'] = False
                 check_newborn('in-place edit of the long-lived object\'s list')
                 bump('fault:reconfigure')
@@ -469,7 +479,7 @@ def execute(scn):
             di = h['dump'] % len(files)
             targ, tref = tables[di], tables[di]
             ref, rexc = ref_traces(di, tref)
-            if rexc is not None or (cur.get('proc') is not None and filter_sensitive[di]):
+            if rexc is not None or (cur.get('proc') is not None and (filter_sensitive[di] or (cur.get('tid') is not None and rename_sensitive[di]))):
                 hist.append(['request_edit', 'skipped'])
                 continue
             if not (isinstance(p.filter_class, list) and isinstance(p.filter_subclass, list)):
@@ -511,6 +521,11 @@ def execute(scn):
         if h['op'] == 'set':
             cur = h['filters']
             apply_filters(p, cur)
+            if cur.get('as_set') and not cur.get('as_tuple'):
+                # any collection of numbers will do as a class / subclass filter: here sets
+                p.filter_class, p.filter_subclass = set(cur.get('cls') or []), frozenset(cur.get('sub') or [])
+                bump('probe:filters_given_as_sets')
+            own['cls'], own['sub'] = p.filter_class, p.filter_subclass        # the caller keeps the very objects it assigned
             for sw, v in zip(('show_timestamp', 'show_name', 'show_func_qual', 'show_tid', 'show_process', 'show_args'), cur.get('show', [])):
                 setattr(p, sw, v)
             bump('fault:reconfigure')
@@ -526,7 +541,7 @@ def execute(scn):
             if rexc is not None:
                 hist.append([what, 'ref-raised', type(rexc).__name__])
                 continue
-            if cur.get('tid') is not None and cur.get('proc') in (scn['dumps'][di].get('renames') or []):
+            if cur.get('tid') is not None and cur.get('proc') is not None and (rename_sensitive[di] or cur.get('proc') in (scn['dumps'][di].get('renames') or [])):
                 # (the thread filter removes the renaming thread's announcement before decoding: by design, not judged)
                 bump('premise_skipped')
                 hist.append([what, 'premise-skipped'])
